@@ -27,7 +27,7 @@
       addresses the rest of the instruction still uses).
       - C02_alloc_point_temporaries_rooted: in every closed state, at every allocation point of the next instruction
         (StringLiteral, InitTable, SetProperty, FunctionPointer, Closure, NativeFunctionPointer, NthRow, AppendTable,
-        RegisterUpvalue, and the first init_table of __to_array / __min / __max / __sort entered by CallNative) the
+        RegisterUpvalue, and the first init_table of __to_array / __min / __max / __sort entered by CallNative or by CallFunction on a native function value) the
         state is closed, the guards are heap objects and every used address is reachable from the VM roots ++ the
         guards, PROVIDED the addresses in ap_assumed are (see below).
       - C02_collection_with_guards / C02_collection_at_alloc_point: a collection there (roots of the VM, guarded
@@ -45,7 +45,7 @@
    see the manifest: partial)
    - allocation points NOT in the model of 3: those of a native after its first init_table (growth of the copy per
      entry, make_row, the nested runs of the key function of min/max/sorted under the guards `entries` / max_key /
-     key_guards), natives entered through CallFunction on a native function value, Vm::insert_value (host API);
+     key_guards), Vm::insert_value (host API);
      that AGrow points are conditional (capacity) is not modelled: the theorem covers them whether they occur or not.
    - that the allocation points, [vm_kids] and [vm_roots] are what the Rust code does is a hand transcription (tied
      to the code by the heap dumps compared in C02Check.v and by the forced schedules, which collect at exactly
